@@ -91,6 +91,8 @@ type CRLSpec struct {
 	SigOverride []byte // use this signature value instead of signing (a signature replayed from another document)
 	AlgOID     asn1.ObjectIdentifier // when set: the OID written into both AlgorithmIdentifiers (the signature is still made with Alg)
 	AlgParams  int                   // with AlgOID: 0 = parameters absent, 1 = NULL
+	RawIssuer  []byte                // when set: the DER of the issuer Name written into the tbsCertList
+	AKIRaw     []byte                // when set: the authorityKeyIdentifier extension value, verbatim
 	Sig        []byte // built: the signature value
 
 	DER   []byte // built
@@ -172,7 +174,11 @@ func (c *CRLSpec) Build() *CRLSpec {
 			b.AddASN1Int64(int64(ver - 1))
 		}
 		algID(b)
-		b.AddBytes(c.Issuer.Cert.RawSubject)
+		if c.RawIssuer != nil {
+			b.AddBytes(c.RawIssuer)
+		} else {
+			b.AddBytes(c.Issuer.Cert.RawSubject)
+		}
 		addTime(b, c.ThisUpdate)
 		if !c.NextUpdate.IsZero() {
 			addTime(b, c.NextUpdate)
@@ -193,7 +199,12 @@ func (c *CRLSpec) Build() *CRLSpec {
 		if ver >= 2 && !c.NoExts {
 			b.AddASN1(cbasn1.Tag(0).ContextSpecific().Constructed(), func(b *cryptobyte.Builder) {
 				b.AddASN1(cbasn1.SEQUENCE, func(b *cryptobyte.Builder) {
-					if c.AKI != akiAbsent {
+					if c.AKIRaw != nil {
+						b.AddASN1(cbasn1.SEQUENCE, func(b *cryptobyte.Builder) {
+							b.AddASN1ObjectIdentifier(oidAKI)
+							b.AddASN1OctetString(c.AKIRaw)
+						})
+					} else if c.AKI != akiAbsent {
 						b.AddASN1(cbasn1.SEQUENCE, func(b *cryptobyte.Builder) {
 							b.AddASN1ObjectIdentifier(oidAKI)
 							b.AddASN1OctetString(AKIBytes(c.Signer, c.AKI))
